@@ -198,6 +198,43 @@ def inv(x):
     _inv_memo[0] = x
     _inv_memo[1] = r
     return r''')]),
+
+ # ---- mutants that need a call ABORTED midway (injected MemoryError / KeyboardInterrupt) --------------
+ # serialize() puts the instance into "export form" and back: harmless unless the call is aborted between
+ dict(name="serialize-mutates-then-restores", props=["C08", "C01"], edits=[(SP,
+      '''        return json.dumps(self._serialize_to_dict()).encode("ascii")''',
+      '''        pw = self.pw
+        self.pw = hexlify(pw)
+        d = self._serialize_to_dict()
+        d["password"] = self.pw.decode("ascii")
+        self.pw = pw
+        return json.dumps(d).encode("ascii")''')]),
+ # process-wide memo of the password blinding term, slot reserved before the value is computed
+ dict(name="blinding-memo-reserved-before-computed", props=["C16"], edits=[(SP,
+      '''        pw_blinding = self.my_blinding().scalarmult(self.pw_scalar)
+        message_elem = self.xy_elem.add(pw_blinding)''',
+      '''        key = (self.my_blinding().to_bytes(), self.pw_scalar)
+        if key not in _BLIND_MEMO:
+            _BLIND_MEMO[key] = self.xy_elem       # reserve the slot
+            _BLIND_MEMO[key] = self.my_blinding().scalarmult(self.pw_scalar)
+        pw_blinding = _BLIND_MEMO[key]
+        message_elem = self.xy_elem.add(pw_blinding)'''),
+      (SP, '''class _SPAKE2_Base:''', '''_BLIND_MEMO = {}
+
+class _SPAKE2_Base:''')]),
+ # the once-guard is set when the call is left instead of when it is entered: only a nested call sees it
+ dict(name="start-guard-set-on-exit", props=["C07"], edits=[(SP,
+      '''        self._started = True
+
+        g = self.params.group
+        self.xy_scalar = g.random_scalar(self.entropy_f)
+        self.xy_elem = g.Base.scalarmult(self.xy_scalar)
+        self.compute_outbound_message()''',
+      '''        g = self.params.group
+        self.xy_scalar = g.random_scalar(self.entropy_f)
+        self.xy_elem = g.Base.scalarmult(self.xy_scalar)
+        self.compute_outbound_message()
+        self._started = True''')]),
 ]
 
 # behaviour-preserving refactors: every check must stay at exit 0
